@@ -5,6 +5,8 @@ import HdVerif.Generated.TC09b
 import HdVerif.Generated.TC09c
 import HdVerif.Generated.TC09d
 import HdVerif.Generated.TC09e
+import HdVerif.Model.MatchOps
+import HdVerif.Generated.TC09f
 /-! # Model for C09: `geometry_equal`, `match_geometry`, `VolumeToVolumeTransformer`, bounds checks
 (`src/highdicom/volume.py`).
 
@@ -441,5 +443,142 @@ def refToIdx (A : Aff) (shape : Ax → Int) (roundOut check : Bool) (pts : List 
       | .ok true => .error .runtime
       | .ok false => .ok res
     else .ok res
+
+/-! ## the same entry points, driven by the order of operations found in the source (TC09f)
+
+`Gen.mgSteps`, `Gen.v2vSteps`, `Gen.refIdxSteps` are regenerated from the AST on every run.  The
+interpreters below execute such a list; `Props/C09.lean` proves that on the regenerated lists they
+coincide with the staged definitions above (`model_follows_source_order`), and the driver runs the
+interpreters. -/
+
+/-- what `match_geometry` has computed so far -/
+structure MgState (α : Type) where
+  vol : Vol α
+  align : Option ((Ax → Ax) × (Ax → Int))
+  plan : Option (AxisPlan × AxisPlan × AxisPlan)
+
+def MgState.requiresPermute {α : Type} (s : MgState α) : Bool :=
+  match s.align with
+  | some a => Match.requiresPermute a.1
+  | none => false
+def MgState.requiresPad {α : Type} (s : MgState α) : Bool :=
+  match s.plan with
+  | some pl => pl.2.2.requiresPad
+  | none => false
+def MgState.requiresCrop {α : Type} (s : MgState α) : Bool :=
+  match s.plan with
+  | some pl => pl.2.2.requiresCrop
+  | none => false
+
+/-- one top-level operation of `match_geometry` -/
+def mgStep {α : Type} (src : Geom) (tgt : Geom) (tol : Rat) (mode : PadMode α) (s : MgState α) (op : MgOp) :
+    Except ErrKind (MgState α) :=
+  match op with
+  | .head =>
+    match mgHead src.frameOfRef tgt.frameOfRef src.cs tgt.cs with
+    | .error e => .error e
+    | .ok _ => .ok s
+  | .align =>
+    match matchAlign s.vol.geom tgt tol with
+    | .error e => .error e
+    | .ok a => .ok { s with align := some a }
+  | .permute =>
+    match s.align with
+    | none => .error .other
+    | some a =>
+      match permute s.vol a.1 with
+      | .error e => .error e
+      | .ok v => .ok { s with vol := v }
+  | .plan =>
+    match s.align with
+    | none => .error .other
+    | some a =>
+      match matchPlan s.vol.geom tgt a.2 tol with
+      | .error e => .error e
+      | .ok pl => .ok { s with plan := some pl }
+  | .copy => .ok s
+  | .pad =>
+    match s.plan with
+    | none => .error .other
+    | some pl =>
+      match pad s.vol (mk3 pl.1.before pl.2.1.before pl.2.2.before) (mk3 pl.1.after pl.2.1.after pl.2.2.after) mode with
+      | .error e => .error e
+      | .ok v => .ok { s with vol := v }
+  | .crop =>
+    match s.plan with
+    | none => .error .other
+    | some pl =>
+      match getitem s.vol (mk3 pl.1.sl pl.2.1.sl pl.2.2.sl) with
+      | .error e => .error e
+      | .ok v => .ok { s with vol := v }
+  | .finalCheck =>
+    match geometryEqual s.vol.geom tgt (some tol) with
+    | .error e => .error e
+    | .ok true => .ok s
+    | .ok false => .error .runtime
+
+/-- run a list of guarded operations -/
+def runMatch {α : Type} (src tgt : Geom) (tol : Rat) (mode : PadMode α) :
+    List (MgOp × (Bool → Bool → Bool → Bool)) → MgState α → Except ErrKind (MgState α)
+  | [], s => .ok s
+  | (op, guard) :: rest, s =>
+    if guard s.requiresPermute s.requiresPad s.requiresCrop then
+      match mgStep src tgt tol mode s op with
+      | .error e => .error e
+      | .ok s' => runMatch src tgt tol mode rest s'
+    else runMatch src tgt tol mode rest s
+
+/-- `match_geometry`, operations in the order of the current source -/
+def matchBySource {α : Type} (src : Vol α) (tgt : Geom) (tol : Rat) (mode : PadMode α) : Except ErrKind (Vol α) :=
+  match runMatch src.geom tgt tol mode mgSteps ⟨src, none, none⟩ with
+  | .error e => .error e
+  | .ok s => .ok s.vol
+
+/-- one operation of an index-mapping entry point; the state is (matrix to apply, current points) -/
+def idxStep (fromA toA : Aff) (shape : Ax → Int) (roundOut check : Bool)
+    (axisTest : Int → Rat → Rat → Except ErrKind Bool) (err : ErrKind) (s : Option Aff × List V3) (op : IdxOp) :
+    Except ErrKind (Option Aff × List V3) :=
+  match op with
+  | .product =>
+    match toA.inv with
+    | .error e => .error e
+    | .ok inv => .ok (some (inv.comp fromA), s.2)
+  | .inverse =>
+    match toA.inv with
+    | .error e => .error e
+    | .ok inv => .ok (some inv, s.2)
+  | .apply =>
+    match s.1 with
+    | none => .error .other
+    | some M => .ok (s.1, s.2.map M.apply)
+  | .round => .ok (s.1, if roundOut then s.2.map roundV else s.2)
+  | .check =>
+    if check then
+      match boundsFail axisTest shape s.2 with
+      | .error e => .error e
+      | .ok true => .error err
+      | .ok false => .ok s
+    else .ok s
+
+def runIdx (fromA toA : Aff) (shape : Ax → Int) (roundOut check : Bool)
+    (axisTest : Int → Rat → Rat → Except ErrKind Bool) (err : ErrKind) :
+    List IdxOp → Option Aff × List V3 → Except ErrKind (Option Aff × List V3)
+  | [], s => .ok s
+  | op :: rest, s =>
+    match idxStep fromA toA shape roundOut check axisTest err s op with
+    | .error e => .error e
+    | .ok s' => runIdx fromA toA shape roundOut check axisTest err rest s'
+
+/-- the transformer, operations in the order of the current source -/
+def v2vBySource (fromA toA : Aff) (toShape : Ax → Int) (roundOut check : Bool) (pts : List V3) : Except ErrKind (List V3) :=
+  match runIdx fromA toA toShape roundOut check v2vBoundsAxis .value v2vSteps (none, pts) with
+  | .error e => .error e
+  | .ok s => .ok s.2
+
+/-- `map_reference_to_indices`, operations in the order of the current source -/
+def refToIdxBySource (A : Aff) (shape : Ax → Int) (roundOut check : Bool) (pts : List V3) : Except ErrKind (List V3) :=
+  match runIdx A A shape roundOut check refBoundsAxis .runtime refIdxSteps (none, pts) with
+  | .error e => .error e
+  | .ok s => .ok s.2
 
 end HdVerif.Match
